@@ -16,7 +16,7 @@ Proved here (for all `dim`, `maxSize`):
 Not proved (Spec-only, see conf/C06.json open_obligations): completeness and
 irredundancy of the orderly generation, absence of panics inside `check_canonicity`.
 -/
-import DSymVerif.Proofs.DSetGenTotal
+import DSymVerif.Proofs.DSetGenIso
 
 namespace DSymVerif.C06
 open DSymVerif.DS DSymVerif.DSG
@@ -202,25 +202,93 @@ theorem generator_never_panics {dim maxSize : Nat} (hdim : 1 ≤ dim) :
 
 example : dsetsNumbered 0 3 = none := by decide
 
-/-! ### 6. not proved: statements left to the Spec (evaluated on every run) -/
+/-! ### 6. the orderly generation: which sets are emitted -/
 
-/-- isomorphism of D-sets: a bijection of the chambers carrying every operation to the
-    operation with the same index -/
-def Iso (s t : DSetData) : Prop :=
-  s.size = t.size ∧ s.dim = t.dim ∧ ∃ f : Nat → Nat,
-    (∀ d, 1 ≤ d → d ≤ s.size → 1 ≤ f d ∧ f d ≤ t.size) ∧
-    (∀ d d', 1 ≤ d → d ≤ s.size → 1 ≤ d' → d' ≤ s.size → f d = f d' → d = d') ∧
-    (∀ i d, i ≤ s.dim → 1 ≤ d → d ≤ s.size → f (s.opU i d) = t.opU i (f d))
+/-- `check_and_apply_implications` never rejects a partial D-set that is part of a complete
+    D-set `T` with commuting far operations, and the set it leaves is still part of `T`:
+    every entry it makes is forced. -/
+theorem implications_complete {ds T : DSetData} (hv : ValidPartialSet ds) (hT : ValidSet T)
+    (hf : FarCommute T) (hp : PartOf ds T) {i d : Nat} (hi : i ≤ ds.dim) (h1 : 1 ≤ d)
+    (h2 : d ≤ ds.size) :
+    ∃ ds', checkImpl ds i d = .ok (some ds') ∧ PartOf ds' T ∧ ValidPartialSet ds' ∧ Ext ds ds' :=
+  checkImpl_complete hv hT hf hp hi h1 h2
 
-/-- completeness of the orderly generation (canonical-prefix pruning never cuts the
-    canonical representative of a class) — Spec-only -/
+/-- a non-zero verdict of `compare_renumbered_from` on a part of `T` is its verdict on `T`:
+    what has been decided on a prefix stays decided (this is why pruning on partial sets
+    and the `is_remap_start` cache are safe) -/
+theorem compare_monotone {ds T : DSetData} (hv : ValidPartialSet ds) (hT : ValidPartialSet T)
+    (hp : PartOf ds T) {d0 maxSize : Nat} {v : Int}
+    (h : compareRenumberedFrom ds d0 maxSize = .ok v) (hv0 : v ≠ 0) :
+    compareRenumberedFrom T d0 maxSize = .ok v :=
+  compare_mono hv hT hp h hv0
+
+/-- **Exactly the orderly canonical D-sets are emitted.**  `Orderly T`: the chambers are
+    numbered in the order of their first occurrence in the row-major operation table;
+    `Canonical T max`: `compare_renumbered_from(T, d0) ≥ 0` for every start chamber
+    d0 ≥ 2, i.e. no breadth-first renumbering of `T` is smaller than `T`.  A D-set is
+    emitted by `DSets::new(dim, max)` iff it is a complete involutive connected D-set of
+    dimension `dim` and size 1..max with commuting far operations that is orderly and
+    canonical: the pruning in `check_canonicity` (on partial sets, with the
+    `is_remap_start` cache) never cuts such a set and lets no other set through. -/
+theorem emitted_iff_orderly_canonical {dim maxSize : Nat} (hdim : 1 ≤ dim) (T : DSetData) :
+    Outcome.ok T ∈ dsets dim maxSize ↔
+      (ValidSet T ∧ FarCommute T ∧ Connected T ∧ T.dim = dim ∧ 1 ≤ T.size ∧ T.size ≤ maxSize ∧
+        Orderly T ∧ Canonical T maxSize) := by
+  constructor
+  · intro h
+    obtain ⟨h1, h2, h3, h4, h5, h6⟩ := emitted_complete_commuting h
+    obtain ⟨h7, h8⟩ := emitted_orderly_canonical h
+    exact ⟨h1, h2, h3, h4, h5, h6, h7, h8⟩
+  · rintro ⟨h1, h2, h3, h4, h5, h6, h7, h8⟩
+    exact canonical_emitted hdim h1 h2 h3 h4 h5 h6 h7 h8
+
+example : Outcome.ok ⟨2, 1, #[2, 1, 1, 2]⟩ ∈ dsets 1 2 := by decide
+
+/-! ### 7. irredundancy -/
+
+/-- Under an isomorphism A → B (A orderly), `compare_renumbered_from(B, image of chamber 1)`
+    renumbers B into A and returns the first difference A − B in row-major order: the
+    generator's comparison is the lexicographic comparison of a D-set with its
+    breadth-first renumberings. -/
+theorem compare_is_lexicographic {A B : DSetData} {f g : Nat → Nat} {maxSize : Nat}
+    (hA : ValidSet A) (hB : ValidSet B) (hO : Orderly A) (hL : Linked A) (hiso : IsoBy A B f g)
+    (hsz : A.size ≤ maxSize) (h1 : 1 ≤ A.size) :
+    compareRenumberedFrom B (f 1) maxSize = .ok (firstDiff A B (loopPairs B.size B.dim)) :=
+  compare_iso hA hB hO hL hiso hsz h1
+
+/-- two isomorphic orderly canonical D-sets are equal -/
+theorem canonical_unique {A B : DSetData} {f g : Nat → Nat} {maxSize : Nat}
+    (hA : ValidSet A) (hB : ValidSet B) (hOA : Orderly A) (hOB : Orderly B)
+    (hLA : Linked A) (hLB : Linked B) (hCA : Canonical A maxSize) (hCB : Canonical B maxSize)
+    (hsz : A.size ≤ maxSize) (h1 : 1 ≤ A.size) (hiso : IsoBy A B f g) : A = B :=
+  iso_canonical_eq hA hB hOA hOB hLA hLB hCA hCB hsz h1 hiso
+
+/-- **Irredundancy**: no value is emitted twice and no two emitted D-sets are isomorphic
+    (`Iso` = a pair of mutually inverse chamber maps carrying every operation to the
+    operation with the same index). -/
+theorem generation_irredundant (dim maxSize : Nat) :
+    (dsets dim maxSize).Pairwise (· ≠ ·) ∧
+    (dsets dim maxSize).Pairwise
+      (fun a b => ∀ s t, a = Outcome.ok s → b = Outcome.ok t → ¬ Iso s t) :=
+  ⟨dsets_nodup dim maxSize, dsets_irredundant dim maxSize⟩
+
+example : IsoBy ⟨2, 1, #[2, 1, 1, 2]⟩ ⟨2, 1, #[2, 1, 1, 2]⟩ id id := IsoBy.refl _
+
+/-! ### 8. not proved: left to the Spec (evaluated on every run) -/
+
+/-- completeness: by `emitted_iff_orderly_canonical` it remains to show that every
+    isomorphism class contains an orderly canonical D-set (a statement about
+    `compare_renumbered_from` alone, not about the search) — decided by the brute-force
+    Spec up to the oracle bounds -/
 def generation_complete_statement : Prop :=
   ∀ dim maxSize (ds : DSetData), 1 ≤ dim → ValidSet ds → FarCommute ds → Connected ds →
-    ds.dim = dim → ds.size ≤ maxSize → ∃ ds', Outcome.ok ds' ∈ dsets dim maxSize ∧ Iso ds ds'
+    ds.dim = dim → 1 ≤ ds.size → ds.size ≤ maxSize →
+    ∃ ds', Outcome.ok ds' ∈ dsets dim maxSize ∧ Iso ds ds'
 
-/-- irredundancy (no two emitted sets isomorphic) — Spec-only -/
-def generation_irredundant_statement : Prop :=
-  ∀ dim maxSize, (dsets dim maxSize).Pairwise
-    (fun a b => ∀ s t, a = Outcome.ok s → b = Outcome.ok t → ¬ Iso s t)
+/-- the part of it that is open: a canonical representative exists in every class -/
+def canonical_representative_statement : Prop :=
+  ∀ maxSize (ds : DSetData), ValidSet ds → FarCommute ds → Connected ds → 1 ≤ ds.size →
+    ds.size ≤ maxSize →
+    ∃ T, Iso ds T ∧ ValidSet T ∧ FarCommute T ∧ Connected T ∧ Orderly T ∧ Canonical T maxSize
 
 end DSymVerif.C06
